@@ -1,0 +1,165 @@
+//go:build verif
+
+// Round-trip lemmas (C14) written as functions: each one encodes a value into w with the package's encoder and then decodes
+// a value from r with the package's decoder. Their contracts (zz_verif_contracts.go) state: if the next bytes of r are the
+// bytes that were written to w, decoding succeeds unless the reader fails, yields the encoded value and consumes exactly the
+// bytes written. The functions are never called; they are compiled only with the build tag "verif" and exist so that the
+// verification-condition generator in /verif (govc) checks the real Encode and Decode against each other.
+
+package perunio
+
+import (
+	"encoding"
+	"io"
+	"math/big"
+	"time"
+)
+
+func verifRoundTripBool(w io.Writer, r io.Reader, x bool) (y bool, encErr, decErr error) {
+	encErr = Encode(w, x)
+	if encErr != nil {
+		return false, encErr, nil
+	}
+	decErr = Decode(r, &y)
+	return y, nil, decErr
+}
+
+func verifRoundTripInt8(w io.Writer, r io.Reader, x int8) (y int8, encErr, decErr error) {
+	encErr = Encode(w, x)
+	if encErr != nil {
+		return 0, encErr, nil
+	}
+	decErr = Decode(r, &y)
+	return y, nil, decErr
+}
+
+func verifRoundTripUint8(w io.Writer, r io.Reader, x uint8) (y uint8, encErr, decErr error) {
+	encErr = Encode(w, x)
+	if encErr != nil {
+		return 0, encErr, nil
+	}
+	decErr = Decode(r, &y)
+	return y, nil, decErr
+}
+
+func verifRoundTripInt16(w io.Writer, r io.Reader, x int16) (y int16, encErr, decErr error) {
+	encErr = Encode(w, x)
+	if encErr != nil {
+		return 0, encErr, nil
+	}
+	decErr = Decode(r, &y)
+	return y, nil, decErr
+}
+
+func verifRoundTripUint16(w io.Writer, r io.Reader, x uint16) (y uint16, encErr, decErr error) {
+	encErr = Encode(w, x)
+	if encErr != nil {
+		return 0, encErr, nil
+	}
+	decErr = Decode(r, &y)
+	return y, nil, decErr
+}
+
+func verifRoundTripInt32(w io.Writer, r io.Reader, x int32) (y int32, encErr, decErr error) {
+	encErr = Encode(w, x)
+	if encErr != nil {
+		return 0, encErr, nil
+	}
+	decErr = Decode(r, &y)
+	return y, nil, decErr
+}
+
+func verifRoundTripUint32(w io.Writer, r io.Reader, x uint32) (y uint32, encErr, decErr error) {
+	encErr = Encode(w, x)
+	if encErr != nil {
+		return 0, encErr, nil
+	}
+	decErr = Decode(r, &y)
+	return y, nil, decErr
+}
+
+func verifRoundTripInt64(w io.Writer, r io.Reader, x int64) (y int64, encErr, decErr error) {
+	encErr = Encode(w, x)
+	if encErr != nil {
+		return 0, encErr, nil
+	}
+	decErr = Decode(r, &y)
+	return y, nil, decErr
+}
+
+func verifRoundTripUint64(w io.Writer, r io.Reader, x uint64) (y uint64, encErr, decErr error) {
+	encErr = Encode(w, x)
+	if encErr != nil {
+		return 0, encErr, nil
+	}
+	decErr = Decode(r, &y)
+	return y, nil, decErr
+}
+
+func verifRoundTripTime(w io.Writer, r io.Reader, x time.Time) (y time.Time, encErr, decErr error) {
+	encErr = Encode(w, x)
+	if encErr != nil {
+		return time.Time{}, encErr, nil
+	}
+	decErr = Decode(r, &y)
+	return y, nil, decErr
+}
+
+func verifRoundTripBigInt(w io.Writer, r io.Reader, x *big.Int) (y *big.Int, encErr, decErr error) {
+	encErr = Encode(w, x)
+	if encErr != nil {
+		return nil, encErr, nil
+	}
+	decErr = Decode(r, &y)
+	return y, nil, decErr
+}
+
+func verifRoundTripBytes32(w io.Writer, r io.Reader, x [32]byte, y *[32]byte) (encErr, decErr error) {
+	encErr = Encode(w, x)
+	if encErr != nil {
+		return encErr, nil
+	}
+	decErr = Decode(r, y)
+	return nil, decErr
+}
+
+// Byte slices are written without a length: the decoder reads as many bytes as the slice it is given holds.
+func verifRoundTripByteSlice(w io.Writer, r io.Reader, x []byte) (y []byte, encErr, decErr error) {
+	encErr = Encode(w, x)
+	if encErr != nil {
+		return nil, encErr, nil
+	}
+	y = make([]byte, len(x))
+	decErr = Decode(r, &y)
+	return y, nil, decErr
+}
+
+func verifRoundTripString(w io.Writer, r io.Reader, x string) (y string, encErr, decErr error) {
+	encErr = Encode(w, x)
+	if encErr != nil {
+		return "", encErr, nil
+	}
+	decErr = Decode(r, &y)
+	return y, nil, decErr
+}
+
+// Values with their own binary marshalling (addresses, assets, app identifiers, channel data): the decoder must hand the
+// unmarshaler exactly the bytes the marshaler produced.
+func verifRoundTripMarshaler(w io.Writer, r io.Reader, x encoding.BinaryMarshaler, y encoding.BinaryUnmarshaler) (encErr, decErr error) {
+	encErr = Encode(w, x)
+	if encErr != nil {
+		return encErr, nil
+	}
+	decErr = Decode(r, y)
+	return nil, decErr
+}
+
+// Several values in one call are written and read one after the other.
+func verifRoundTripSequence(w io.Writer, r io.Reader, a uint16, b *big.Int, c bool) (a2 uint16, b2 *big.Int, c2 bool, encErr, decErr error) {
+	encErr = Encode(w, a, b, c)
+	if encErr != nil {
+		return 0, nil, false, encErr, nil
+	}
+	decErr = Decode(r, &a2, &b2, &c2)
+	return a2, b2, c2, nil, decErr
+}
